@@ -170,5 +170,9 @@ def eval_point(pt, R):
                 o = (spectrum.pcovar if meth == 'covariance' else spectrum.pmodcovar)(x, p)
                 o()
                 R.check(close(np.asarray(o.ar), aref, tol, 1e-10), 'class', dict(feats, cls=meth), ptm, o.ar, aref, 'class .ar != least-squares coefficients')
+                if getattr(o, 'rho', None) is not None:
+                    per = emin / (N - p) if meth == 'covariance' else emin / (2.0 * (N - p))
+                    R.check(abs(o.rho - per) <= tol * max(energy, 1e-300) / (N - p), 'class', dict(feats, cls=meth, attr='rho'), ptm, o.rho, per,
+                            'class .rho != minimum prediction-error energy per sample')
             except Exception as ex:
                 R.viol('class', dict(feats, cls=meth, exc=type(ex).__name__), ptm, repr(ex), aref, 'class raised')
